@@ -133,3 +133,191 @@ theorem inter_spec (hk : KeyOk hash eqv) (dflt : V) (x y : Tbl K V) (hx : Inv ha
     cases lookupL eqv x.toList q <;> cases lookupL eqv y.toList q <;> simp
 
 end Elk.HashMap
+
+namespace Elk.HashMap
+variable {K V : Type} {hash : K → Nat} {eqv : K → K → Bool}
+
+/-! ### equality -/
+
+theorem equalLoop_spec (hk : KeyOk hash eqv) (veq : V → V → Bool) (y : Tbl K V) (hy : Inv hash eqv y) :
+    ∀ (es : List (K × V)), equalLoop hash eqv veq y es =
+      .ok (es.all fun p => match lookupL eqv y.toList p.1 with
+        | some w => veq p.2 w
+        | none => false) := by
+  intro es
+  induction es with
+  | nil => rfl
+  | cons p rest ih =>
+    obtain ⟨k, v⟩ := p
+    simp only [equalLoop, get_spec hk y hy k, List.all_cons]
+    cases lookupL eqv y.toList k with
+    | none => simp
+    | some w =>
+      simp only
+      cases veq v w with
+      | false => simp
+      | true => simp [ih]
+
+theorem keysIn_spec (hk : KeyOk hash eqv) (y : Tbl K V) (hy : Inv hash eqv y) :
+    ∀ (es : List (K × V)), keysIn hash eqv y es =
+      .ok (es.all fun p => (lookupL eqv y.toList p.1).isSome) := by
+  intro es
+  induction es with
+  | nil => rfl
+  | cons p rest ih =>
+    obtain ⟨k, v⟩ := p
+    simp only [keysIn, containsKey_spec hk y hy k, List.all_cons]
+    cases (lookupL eqv y.toList k).isSome with
+    | false => simp
+    | true => simp [ih]
+
+/-- counting: an injection (up to `eqv`) between key-distinct lists of the same length is onto -/
+theorem distinct_inj_onto (hk : KeyOk hash eqv) : ∀ (es fs : List (K × V)), Distinct eqv es → Distinct eqv fs →
+    (∀ p ∈ es, ∃ r ∈ fs, eqv p.1 r.1 = true) →
+    es.length ≤ fs.length ∧ (es.length = fs.length → ∀ r ∈ fs, ∃ p ∈ es, eqv p.1 r.1 = true) := by
+  intro es
+  induction es with
+  | nil =>
+    intro fs _ _ _
+    refine ⟨by simp, ?_⟩
+    intro h r hr
+    have : fs = [] := List.length_eq_zero_iff.mp (by simpa using h.symm)
+    subst this; cases hr
+  | cons p es ih =>
+    intro fs hd hf hinj
+    obtain ⟨r, hr, hpr⟩ := hinj p (by simp)
+    obtain ⟨a, b, hsplit⟩ := List.append_of_mem hr
+    subst hsplit
+    have hf' : Distinct eqv (a ++ b) := by
+      simp only [Distinct] at hf ⊢
+      exact hf.sublist (List.Sublist.append (List.Sublist.refl a) (List.sublist_cons_self r b))
+    have hinj' : ∀ p' ∈ es, ∃ r' ∈ a ++ b, eqv p'.1 r'.1 = true := by
+      intro p' hp'
+      obtain ⟨r', hr', hpr'⟩ := hinj p' (by simp [hp'])
+      have hne : r' ∈ a ++ b := by
+        rcases List.mem_append.mp hr' with h | h
+        · exact List.mem_append.mpr (Or.inl h)
+        · rcases List.mem_cons.mp h with h | h
+          · exfalso
+            subst h
+            have h1 := (List.pairwise_cons.mp hd).1 p' hp'
+            have h2 := hk.trans p.1 r'.1 p'.1 hpr (hk.symm p'.1 r'.1 hpr')
+            rw [h1] at h2; cases h2
+          · exact List.mem_append.mpr (Or.inr h)
+      exact ⟨r', hne, hpr'⟩
+    obtain ⟨hle, honto⟩ := ih (a ++ b) (List.pairwise_cons.mp hd).2 hf' hinj'
+    simp only [List.length_cons, List.length_append] at hle ⊢
+    refine ⟨by omega, ?_⟩
+    intro hlen r' hr'
+    rcases List.mem_append.mp hr' with h | h
+    · obtain ⟨p', hp', he⟩ := honto (by simp only [List.length_append]; omega) r' (List.mem_append.mpr (Or.inl h))
+      exact ⟨p', by simp [hp'], he⟩
+    · rcases List.mem_cons.mp h with h | h
+      · subst h; exact ⟨p, by simp, hpr⟩
+      · obtain ⟨p', hp', he⟩ := honto (by simp only [List.length_append]; omega) r' (List.mem_append.mpr (Or.inr h))
+        exact ⟨p', by simp [hp'], he⟩
+
+/-- two tables denote the same finite map (values compared with `veq`) -/
+def SameMap (eqv : K → K → Bool) (veq : V → V → Bool) (x y : Tbl K V) : Prop :=
+  ∀ q, match lookupL eqv x.toList q, lookupL eqv y.toList q with
+    | some v, some w => veq v w = true
+    | none, none => True
+    | _, _ => False
+
+/-- **`==` decides equality of the denoted maps** -/
+theorem equal_spec (hk : KeyOk hash eqv) (veq : V → V → Bool) (x y : Tbl K V)
+    (hx : Inv hash eqv x) (hy : Inv hash eqv y) :
+    ∃ b, equal hash eqv veq x y = .ok b ∧ (b = true ↔ SameMap eqv veq x y) := by
+  have hlx := length_spec (hash := hash) x hx
+  have hly := length_spec (hash := hash) y hy
+  simp only [equal]
+  by_cases hne : x.elements ≠ y.elements
+  · rw [if_pos hne]
+    refine ⟨false, rfl, ?_⟩
+    constructor
+    · intro h; cases h
+    · intro hsame
+      exfalso
+      -- the same map has the same number of keys
+      have hinj : ∀ (a b : Tbl K V), Inv hash eqv a → Inv hash eqv b → SameMap eqv veq a b →
+          ∀ p ∈ a.toList, ∃ r ∈ b.toList, eqv p.1 r.1 = true := by
+        intro a b ha hb hs p hp
+        obtain ⟨k, v⟩ := p
+        obtain ⟨j, hj⟩ := (mem_entries a.slots k v).mp hp
+        have h1 := (lookup_iff hk a ha k v).mpr ⟨j, k, hj, hk.refl k⟩
+        have := hs k
+        rw [h1] at this
+        cases h2 : lookupL eqv b.toList k with
+        | none => rw [h2] at this; exact this.elim
+        | some w =>
+          obtain ⟨k2, hm, he⟩ := lookupL_some_mem eqv _ k w h2
+          exact ⟨(k2, w), hm, hk.symm k2 k he⟩
+      have hsym : SameMap eqv veq y x → True := fun _ => trivial
+      have h1 := (distinct_inj_onto hk x.toList y.toList hlx.2 hly.2 (hinj x y hx hy hsame)).1
+      have hsame' : ∀ p ∈ y.toList, ∃ r ∈ x.toList, eqv p.1 r.1 = true := by
+        intro p hp
+        obtain ⟨k, v⟩ := p
+        obtain ⟨j, hj⟩ := (mem_entries y.slots k v).mp hp
+        have h1 := (lookup_iff hk y hy k v).mpr ⟨j, k, hj, hk.refl k⟩
+        have := hsame k
+        rw [h1] at this
+        cases h2 : lookupL eqv x.toList k with
+        | none => rw [h2] at this; exact this.elim
+        | some w =>
+          obtain ⟨k2, hm, he⟩ := lookupL_some_mem eqv _ k w h2
+          exact ⟨(k2, w), hm, hk.symm k2 k he⟩
+      have h2 := (distinct_inj_onto hk y.toList x.toList hly.2 hlx.2 hsame').1
+      exact hne (by rw [hlx.1, hly.1]; omega)
+  · rw [if_neg hne]
+    have heq : x.elements = y.elements := by
+      cases Nat.decEq x.elements y.elements with
+      | isTrue h => exact h
+      | isFalse h => exact absurd h hne
+    rw [equalLoop_spec hk veq y hy]
+    refine ⟨_, rfl, ?_⟩
+    rw [List.all_eq_true]
+    constructor
+    · intro hall q
+      -- every pair of x is matched in y; sizes agree, so y has no other keys
+      have hinj : ∀ p ∈ x.toList, ∃ r ∈ y.toList, eqv p.1 r.1 = true := by
+        intro p hp
+        have := hall p hp
+        cases h2 : lookupL eqv y.toList p.1 with
+        | none => rw [h2] at this; cases this
+        | some w =>
+          obtain ⟨k2, hm, he⟩ := lookupL_some_mem eqv _ p.1 w h2
+          exact ⟨(k2, w), hm, hk.symm k2 p.1 he⟩
+      have honto := (distinct_inj_onto hk x.toList y.toList hlx.2 hly.2 hinj).2
+        (by rw [← hlx.1, ← hly.1]; exact heq)
+      cases hxq : lookupL eqv x.toList q with
+      | some v =>
+        obtain ⟨k, hm, he⟩ := lookupL_some_mem eqv _ q v hxq
+        have := hall (k, v) hm
+        simp only at this
+        rw [lookup_congr hk y hy k q he] at this
+        cases hyq : lookupL eqv y.toList q with
+        | none => rw [hyq] at this; cases this
+        | some w => rw [hyq] at this; simpa using this
+      | none =>
+        cases hyq : lookupL eqv y.toList q with
+        | none => trivial
+        | some w =>
+          exfalso
+          obtain ⟨k2, hm, he⟩ := lookupL_some_mem eqv _ q w hyq
+          obtain ⟨p, hp, hpe⟩ := honto (k2, w) hm
+          obtain ⟨k1, v1⟩ := p
+          obtain ⟨j, hj⟩ := (mem_entries x.slots k1 v1).mp hp
+          have := (lookup_iff hk x hx q v1).mpr ⟨j, k1, hj, hk.trans k1 k2 q hpe he⟩
+          rw [hxq] at this; cases this
+    · intro hsame p hp
+      obtain ⟨k, v⟩ := p
+      obtain ⟨j, hj⟩ := (mem_entries x.slots k v).mp hp
+      have h1 := (lookup_iff hk x hx k v).mpr ⟨j, k, hj, hk.refl k⟩
+      have := hsame k
+      rw [h1] at this
+      simp only
+      cases h2 : lookupL eqv y.toList k with
+      | none => rw [h2] at this; exact this.elim
+      | some w => rw [h2] at this; simpa using this
+
+end Elk.HashMap
